@@ -68,8 +68,24 @@ func (e *errFlow) types(v ssa.Value, out errTypeSet, depth int) {
 	case *ssa.ChangeInterface:
 		e.types(x.X, out, depth+1)
 	case *ssa.Phi:
-		for _, ed := range x.Edges {
-			e.types(ed, out, depth+1)
+		for k, ed := range x.Edges {
+			// the default arm of a type switch: the value arrives here only
+			// after `ed.(T)` failed, so it is not a T
+			excl := failedAsserts(ed, x.Block().Preds[k], x.Block())
+			if len(excl) == 0 {
+				e.types(ed, out, depth+1)
+				continue
+			}
+			sub := errTypeSet{}
+			saved := e.memo
+			e.memo = map[ssa.Value]bool{}
+			e.types(ed, sub, depth+1)
+			e.memo = saved
+			for t := range sub {
+				if !excl[t] {
+					out[t] = true
+				}
+			}
 		}
 	case *ssa.TypeAssert:
 		e.types(x.X, out, depth+1)
@@ -1177,4 +1193,43 @@ func c15FlagOfTests(v ssa.Value, tests []errClassTest, class string, seen map[ss
 		}
 	}
 	return best
+}
+
+// failedAsserts: the concrete types T for which control reaches the edge
+// pred -> blk only after the comma-ok assertion v.(T) came out false.
+func failedAsserts(v ssa.Value, pred, blk *ssa.BasicBlock) map[string]bool {
+	out := map[string]bool{}
+	if v.Referrers() == nil {
+		return out
+	}
+	fn := pred.Parent()
+	for _, ref := range *v.Referrers() {
+		ta, ok := ref.(*ssa.TypeAssert)
+		if !ok || !ta.CommaOk || ta.X != v {
+			continue
+		}
+		for _, r2 := range *ta.Referrers() {
+			ex, ok := r2.(*ssa.Extract)
+			if !ok || ex.Index != 1 {
+				continue
+			}
+			for _, r3 := range *ex.Referrers() {
+				iff, ok := r3.(*ssa.If)
+				if !ok {
+					continue
+				}
+				cut := map[[2]int]bool{{iff.Block().Index, 1}: true}
+				only := false
+				if iff.Block() == pred {
+					only = pred.Succs[1] == blk && pred.Succs[0] != blk
+				} else {
+					only = !ssau.ReachableAvoidingEdges(fn, pred, cut)
+				}
+				if only {
+					out[ta.AssertedType.String()] = true
+				}
+			}
+		}
+	}
+	return out
 }
